@@ -58,6 +58,9 @@ class C19(Prop):
             stats.exclude("desync_actions_or_capacity")
             break
           o, steps = r
+          if op[0] in ("clear_spy", "clear_trace"):
+            self.compare(run, "op %d %s" % (idx, op), None)
+            classes.append("cleared_between_steps")
           if steps:
             self.compare(run, "op %d %s" % (idx, op), steps)
             for s in steps:
@@ -88,7 +91,7 @@ class C19(Prop):
   def compare(self, run, where, steps):
     chart = run.real.chart
     rtc = chart.spy_rtc()
-    d = first_diff(rtc, steps[-1])
+    d = first_diff(rtc, steps[-1]) if steps else None
     if d:
       raise PropertyViolation("%s: spy_rtc() line %d is %r, the handlers saw %r" % (
         (where,) + d), "C19:rtc")
